@@ -57,13 +57,33 @@ def generate(seed, num, maxq=5, maxlen=14, spec="GenSpec"):
     return [json.loads(l) for l in open(dump)], False
 
 
+def scripted():
+    """PairSpec explored exhaustively by TLC (BFS): every finished behaviour of the scripted release family."""
+    key = vlib.sha(vlib.spec_hash(*SPEC_FILES), "pairspec")
+    d = vlib.cache_dir("qrtpair", key)
+    dump = os.path.join(d, "beh.ndjson")
+    if os.path.exists(dump):
+        return [json.loads(l) for l in open(dump)]
+    shutil.rmtree(d, ignore_errors=True)
+    os.makedirs(d)
+    cfg = os.path.join(d, "pair.cfg")
+    with open(cfg, "w") as f:
+        f.write("SPECIFICATION PairSpec\nCONSTANTS MaxQ = 5\n MaxLen = 14\nINVARIANTS AllInv DumpDone\nCHECK_DEADLOCK FALSE\n")
+    tmp = dump + ".tmp"
+    r = vlib.tlc("MCQRuntime.tla", cfg, env={"QRT_DUMP": tmp}, timeout=3000, java_opts=["-Xss256m"])
+    vlib.tlc_ok(r, "MCQRuntime scripted family")
+    os.replace(tmp, dump)
+    return [json.loads(l) for l in open(dump)]
+
+
 def run(tier, seed):
     t0 = time.time()
     ex = exhaustive(tier)
     num = 600 if tier == "quick" else 6000
     behs, cached = generate(seed, num)
     rel, _ = generate(seed + 7, num // 3, spec="RelSpec")
-    behs = behs + rel
+    scr = scripted()
+    behs = behs + rel + scr
     jobs, infos = [], {}
     for i, b in enumerate(behs):
         src, info = qrender.render(b)
